@@ -21,7 +21,7 @@
    the harness compares the reference tape of generated documents with an independently computed
    expected tape instead. *)
 From JV Require Import Bytes Tables BinPrim BinTape BinTapeWf.
-From JV.proofs Require Import BinTapeWfProofs BinTapeInv BinTapeSim.
+From JV.proofs Require Import BinTapeWfProofs BinTapeInv BinTapeSim BinTapeSafe.
 Open Scope N_scope.
 
 (* all byte strings, no bound: optimised = reference, for the parser with the I64 exclusion *)
@@ -60,6 +60,13 @@ Theorem C03_code_fast_eq_ref : fast_path_excludes_i64 = true ->
   forall bytes, obs (parse_opt bytes) = obs (parse_ref bytes).
 Proof. intros E bytes. unfold parse_opt, parse_ref. rewrite E, <- (C03_ref_is_the_codes_reference true). apply fast_eq_ref_fixed. Qed.
 Print Assumptions C03_code_fast_eq_ref.
+
+(* [obs] never is [Crashed]: no unchecked access (get_unchecked, set_len, unwrap_unchecked), no
+   unreachable_unchecked / debug_assert!, no transmute outside the enum and no fuel exhaustion is
+   reachable, for either interpretation, on any byte string (J2-J4; the binary-tape share of C05) *)
+Theorem C03_parse_never_crashes : forall fx opt bytes, is_crash (parse fx opt bytes) = false.
+Proof. exact parse_no_crash. Qed.
+Print Assumptions C03_parse_never_crashes.
 
 (* J4: next_state (state*2 - (state & 2), transmute) never leaves the enum, on the generated discriminants *)
 Theorem C03_next_state_total : forall s, next_state s = Ok (next_tbl s).
